@@ -9,10 +9,15 @@ CONSTANTS MaxLen
 
 Alphabet == {"a", "\\", "n", "t", "z", "'", "\"", " ", NL}
 
+\* "anything else is an error": a backslash before every other byte
+PrintableStr == " !\"#$%&'()*+,-./0123456789:;<=>?@ABCDEFGHIJKLMNOPQRSTUVWXYZ[\\]^_`abcdefghijklmnopqrstuvwxyz{|}~"
+OtherBytes == ({SubSeq(PrintableStr, i, i) : i \in 1..Len(PrintableStr)} \cup {TAB, CR, "C3", "A9", "80", "FF"}) \ Alphabet
+Probes == {<<"x", "\\", b, "y">> : b \in OtherBytes} \cup {<<"\\", b>> : b \in OtherBytes}
+
 VARIABLES body, q, done
-Init == /\ body \in SeqsUpTo(Alphabet, 2) /\ q = "'" /\ done = FALSE
+Init == /\ body \in SeqsUpTo(Alphabet, 2) \cup Probes /\ q = "'" /\ done = FALSE
 Next == /\ ~done /\ done' = TRUE
-        /\ \E s \in (IF Len(body) < 2 THEN {<<>>} ELSE SeqsUpTo(Alphabet, MaxLen - 2)) : body' = body \o s
+        /\ \E s \in (IF Len(body) < 2 \/ body \in Probes THEN {<<>>} ELSE SeqsUpTo(Alphabet, MaxLen - 2)) : body' = body \o s
         /\ q' \in {x \in Quotes : \A i \in 1..Len(body') : body'[i] # x}
 
 \* ---- laws
